@@ -82,6 +82,9 @@ func checkC17(c *core.Ctx) {
 	if err != nil {
 		panic(err)
 	}
+	if b, err := os.ReadFile(sc.PkgAllFoi()); err == nil {
+		fo.FoiText = string(b)
+	}
 	c.Set("rule", "programs of the tinyfo profile (annotated functions, + -, comparisons, && || not, if/elif/else, non-generic records and unions with match, slices, pairs and destructuring, pipes, partial application, package_info calls through a tinyfo-readable .foi) are enumerated by the same choice-tree generator as C01 restricted to that profile; a program tinyfo rejects is outside the property's quantifier (counted, not judged); accepted programs are compiled and run three ways: reference evaluator, tinyfo's Go, fc's Go; distinct = distinct program text; non-trivial = at least one construct and two output events")
 	c.Assumption("tinyfo cannot read today's pkg/pkg_all.foi; a reduced .foi with the same signatures (frt.Println/Sprintf1/Printf1/Fst/Snd, slice.Length/Head/Map) is used for both transpilers")
 	foiPath := filepath.Join(sc.Root, "tiny.foi")
